@@ -6,6 +6,7 @@ use serde_json::{json, Value};
 
 pub mod c01;
 pub mod c02;
+pub mod c03;
 pub mod c04;
 pub mod c05;
 pub mod c06;
@@ -36,6 +37,7 @@ pub fn run(id: &str, tier: Tier, seed: u64, known: &Known) -> PropRun {
     match id {
         "C01" => c01::run(tier, seed, known),
         "C02" => c02::run(tier, seed, known),
+        "C03" => c03::run(tier, seed, known),
         "C04" => c04::run(tier, seed, known),
         "C05" => c05::run(tier, seed, known),
         "C06" => c06::run(tier, seed, known),
@@ -62,6 +64,7 @@ pub fn replay(id: &str, part: &str, bytes: &[u8], case: &Value) -> Verdict {
     match id {
         "C01" => c01::replay(part, bytes, case, &mut st),
         "C02" => c02::replay(part, bytes, case, &mut st),
+        "C03" => c03::replay(part, bytes, case, &mut st),
         "C04" => c04::replay(part, bytes, case, &mut st),
         "C05" => c05::replay(part, bytes, case, &mut st),
         "C06" => c06::replay(part, bytes, case, &mut st),
